@@ -3,6 +3,7 @@
    exchange-rate application are covered by C02 / C10 on the registry and money
    models (same constructor choke point [mk_qty]). *)
 From Coq Require Import ZArith QArith Qabs List Bool.
+From QV Require Import Model.Registry Proofs.GenQuantumEq.
 From QV Require Import Gen.QuantityImpl Model.Alloc Gen.AllocImpl Proofs.GenAllocEq.
 From QV Require Import Model.Num Model.Rounding Model.Quantity
      Proofs.RoundingQ Proofs.QuantityProofs Proofs.C13Proofs Proofs.C01Proofs
@@ -82,6 +83,20 @@ Proof.
   intros qu H. rewrite (mk_qty_impl_eq dm a u), H. reflexivity.
 Qed.
 Print Assumptions C05_constructor_is_translated_code.
+
+(* ... and the per-unit quantum that the constructor divides by: Unit.quantum is
+   re-translated on every run and is the quantum of the unit views the directory
+   model hands to the quantity layer — the quantum of the unit's type divided by
+   the unit's scale (the code's assertion "a type with a quantum has a reference
+   unit" is the error branch) *)
+Theorem C05_unit_quantum_is_translated_code : forall s u k,
+  find_cls s (ru_cls u) = Some k -> ru_sf u = None ->
+  match unit_quantum_impl (rc_quantum k) (view s u) with
+  | Ok o => u_quantum (view s u) = o
+  | Err _ => u_quantum (view s u) = None
+  end.
+Proof. exact view_quantum_is_translated_code. Qed.
+Print Assumptions C05_unit_quantum_is_translated_code.
 
 (* ... and so are the unary operators: abs() and negation build their result
    through the constructor, + returns the operand itself *)
